@@ -29,7 +29,12 @@ func main() {
 		"alphabet for module 0 x 6 companion pairs x 4 install kinds x histories of 4 requires over 3 names; quick = PRNG sample of that product, " +
 		"thorough = one exhaustive slice (all 81 histories) + 6 sampled histories for every other combination); random histories of 5..14 operations " +
 		"with scripts of length<=4; hosts created with SkipOpenLibs that call OpenBase/OpenPackage/OpenString/OpenTable/RegisterModule/PreloadModule in a random " +
-		"order and then require every registered module, package, string, table and read their globals. Non-trivial = at least two require calls and at least one loader invocation; distinct by Gallina term. " +
+		"order and then require every registered module, package, string, table and read their globals. " +
+		"Wave 5: a quarter of the nested requires run on another coroutine of the state (coroutine.wrap / create+resume with a Lua closure or require itself " +
+		"as the body; L.NewThread + CallByParam / L.Resume in Go loaders), one host call in seven (require, PreloadModule, RegisterModule) is issued on one of two " +
+		"extra host threads; operation package.preload = {copies of some old entries} in random and initialisation-order histories and a dedicated family around it " +
+		"(replace, then host/Lua registrations on any thread, then require everything); chains of 5..9 nested loads over nine names ending in success, failure, " +
+		"a missing module or a long cycle. Non-trivial = at least two require calls and at least one loader invocation; distinct by Gallina term. " +
 		"Scripts that reset package.loaded[self] to nil/false and then require again (unbounded recursion) are outside the domain and never generated."
 	r := lib.NewRand(a.Seed)
 	env := newEnv()
